@@ -942,6 +942,7 @@ func parseResponse(form string, codec string, accept []string, rv *RespView, new
 				}
 				if err := json.Unmarshal(payload, &end); err != nil {
 					o.problem("end-of-stream frame is not JSON: %v", err)
+					o.Err = &ErrSpec{Code: -1, Msg: "unparsable end of stream"}
 					continue
 				}
 				for k, v := range end.Metadata {
